@@ -33,7 +33,7 @@ ANCHORS = [
     "acnportal.acndata.utils:parse_dates",
 ]
 REQUIRED = ["interleaved_scenarios", "scenarios_judged", "multi_page_scenarios", "empty_page_scenarios", "zero_document_scenarios", "timeseries_scenarios",
-            "time_filter_scenarios", "date_fields_checked", "timeseries_timestamps_checked", "timeseries_straddling_offset_change", "round_trips", "tzinfo:zoneinfo", "zoneinfo_fold_1_with_microseconds", "invalid_site_rejections",
+            "time_filter_scenarios", "date_fields_checked", "timeseries_timestamps_checked", "timeseries_straddling_offset_change", "chains_of_over_1000_pages", "round_trips", "tzinfo:zoneinfo", "zoneinfo_fold_1_with_microseconds", "invalid_site_rejections",
             "regime:dst-transition-instant"]
 BUDGET_S = {"quick": 200, "thorough": 2400}
 ZONES = ["America/Los_Angeles", "America/New_York", "Europe/London", "Asia/Kolkata", "Australia/Sydney", "UTC",
@@ -58,6 +58,10 @@ def cases(seed, tier):
                     "empties": ([rng.randint(1, 3)] if rng.random() < 0.3 else []) + ([rng.randint(1, 6)] if rng.random() < 0.1 else []),
                     "empty_last": rng.random() < 0.15, "extra_links": rng.random() < 0.7, "ts": rng.random() < 0.2,
                     "mode": rng.choice(["all", "time", "time", "args"])})
+    # very long chains of 'next' links: a thousand pages and more (one session per page is how the time-series endpoint pages)
+    for i in range(3 if tier == "quick" else 40):
+        out.append({"kind": "paging", "seed": rng.randrange(1 << 40), "n": rng.choice([1100, 1600, 2300]), "tz": rng.choice(ZONES),
+                    "cap": 1, "empties": [], "empty_last": rng.random() < 0.3, "extra_links": True, "ts": False, "mode": "all", "long": True})
     for i in range(ns // 12):
         # two (or three) generators of one client, alive at the same time and consumed interleaved
         out.append({"kind": "interleave", "seed": rng.randrange(1 << 40), "cap": rng.choice([1, 2, 3, 7]), "tz": rng.choice(ZONES),
@@ -101,6 +105,8 @@ def _run_paging(case, obs):
     tzname = case["tz"]
     z = zoneinfo.ZoneInfo(tzname)
     base, docs = _docs(rng, case["n"], tzname, case["ts"])
+    if case.get("long"):
+        obs.ev("chains_of_over_1000_pages")
     fake = FakeRequests(docs, cap=case["cap"], empties=case["empties"], extra_links=case["extra_links"],
                         empty_last=case["empty_last"])
     hrefs = []
